@@ -9,6 +9,9 @@ oracle_c01 — line protocol (one result line per input line; the first line of 
   `acqRx <t> <key>` / `acqWx <t> <key>`       → `granted` | `ctx woke=[…]`    same with an already cancelled context
   `rel <t>`                                   → `ok woke=[…]`                 `t` must be inside; woke = callers admitted by it
   `cancel <t>`                                → `ctx woke=[…]` (was waiting) | `noop` (holding or finished)
+  `relx <t> <u>`                              → `ok woke=[…] then=<nil|ctx|noop>`   release by `t`; `u`'s context ends
+                                                 while that release is in its critical section: the release's
+                                                 grant wins (`nil`), otherwise `u` leaves the queue (`ctx`)
   `inside <key>`                              → `r=<readers> w=<writers>`     callers inside the critical section
   `who`                                       → `in=[…] parked=[…]`           all callers, sorted by id
   `entries`                                   → number of entries the container keeps
@@ -91,6 +94,25 @@ def stepLine (o : OSt) (line : String) : OSt × String :=
     if v != "single" && v != "wide" && v != "xhash" then (o, "bad-op") else
     match natCanon rw 6, natCanon prime 4 with
     | some rw, some _ => if rw == 0 then (o, "bad-op") else ({ OSt.empty with started := true, rw := rw }, "ok")
+    | _, _ => (o, "bad-op")
+  | ["relx", t, u] =>
+    if !o.started then (o, "bad-op") else
+    match natCanon t 9, natCanon u 9 with
+    | some t, some u =>
+      match callOf o t, callOf o u with
+      | some (_, k, _), some (_, ku, _) =>
+        match step cfg o.rw o.st (.release t k) with
+        | none => (o, "bad-op")
+        | some s1 =>
+          let w1 := woke o k o.st s1
+          if (s1 ku).waits u then
+            match step cfg o.rw s1 (.cancel u ku) with
+            | none => (o, "bad-op")
+            | some s2 => ({ o with st := s2 }, s!"ok woke={showTids (w1 ++ woke o ku s1 s2)} then=ctx")
+          else
+            let res := if (o.st ku).waits u && (s1 ku).holds u then "nil" else "noop"
+            ({ o with st := s1 }, s!"ok woke={showTids w1} then={res}")
+      | _, _ => (o, "bad-op")
     | _, _ => (o, "bad-op")
   | [op, t, tok] =>
     if !o.started then (o, "bad-op") else
